@@ -2,6 +2,7 @@ use crate::common::Ctx;
 use serde_json::Value;
 
 pub mod c04;
+pub mod c05;
 pub mod c07;
 pub mod c09;
 pub mod c10;
@@ -22,6 +23,7 @@ type ReplayFn = fn(&Ctx, &Value) -> Result<(bool, String), String>;
 fn table(prop: &str) -> Option<(RunFn, ReplayFn)> {
     Some(match prop {
         "C04" => (c04::run, c04::replay),
+        "C05" => (c05::run, c05::replay),
         "C07" => (c07::run, c07::replay),
         "C09" => (c09::run, c09::replay),
         "C10" => (c10::run, c10::replay),
